@@ -11,12 +11,9 @@ Definition isinfix (e : fexpr) : bool := match e with FInfix _ _ _ => true | _ =
 
 Lemma parse_int_literal_int s e : parse_int_literal s = Ok e -> exists z, e = FInt z.
 Proof.
-  unfold parse_int_literal. intros H. destruct (negb (has_exponent s)).
+  intros H. destruct (parse_int_literal_cases s) as [Hc|[Hc|[Hc|[z Hc]]]]; rewrite Hc in H; try discriminate H.
   - destruct (int_of_text s); [|discriminate H]. injection H as <-. eauto.
-  - destruct (split_number s) as [[[[neg ip] fp] ex]|]; [|discriminate H].
-    destruct (Z.leb 400 ex); [discriminate H|]. destruct (_ || _); [discriminate H|].
-    cbv zeta in H. match type of H with context [if ?c then _ else _] => destruct c end; [discriminate H|].
-    injection H as <-. eauto.
+  - injection H as <-. eauto.
 Qed.
 
 (* no registered function takes a Logical-typed parameter, so an infix argument never validates *)
